@@ -599,7 +599,7 @@ func main() {
 	// 1. all length pairs x one-bit-different address pairs (IPv4: always all pairs; IPv6: all pairs)
 	k4, k6 := 3, 1
 	if thorough {
-		k4, k6 = 14, 6
+		k4, k6 = 14, 14
 	}
 	for lp := 0; lp <= 32; lp++ {
 		for lx := 0; lx <= 32; lx++ {
